@@ -33,6 +33,7 @@ type Env struct {
 	sides   map[string]*Env // pair lemmas: "l" and "r"
 	inOld   bool
 	noFacts bool
+	regionSide bool
 }
 
 func (e *Env) withBound(name, sym string) *Env {
@@ -362,7 +363,7 @@ func (x *Exec) specIdent(env *Env, id *ast.Ident) (Val, error) {
 		}
 	}
 	// locals (inside function bodies: invariants, asserts)
-	if env.fr != nil && !env.inOld {
+	if env.fr != nil && (!env.inOld || env.regionSide) {
 		if a := x.findLocal(env.fr, name, env.pos); a != nil {
 			if !a.Heap {
 				if c, ok := env.st.cells[a]; ok {
@@ -911,6 +912,40 @@ func (x *Exec) specCall(env *Env, c *ast.CallExpr) (Val, error) {
 			}
 		}
 		return mBool(smtAnd(eqs...)), nil
+	case "unchanged":
+		// unchanged(s): every element of slice s equals its value at function entry
+		if len(c.Args) != 1 || env.old == nil {
+			return Val{}, fmt.Errorf("unchanged(slice) needs an entry state")
+		}
+		cur, err := x.spec(env, c.Args[0])
+		if err != nil {
+			return Val{}, err
+		}
+		old, err := x.spec(env.inState(env.old, env.oldVars), c.Args[0])
+		if err != nil {
+			return Val{}, err
+		}
+		sl, ok := cur.Typ.Underlying().(*types.Slice)
+		if !ok || len(cur.L) != 4 || len(old.L) != 4 {
+			return Val{}, fmt.Errorf("unchanged: %s is not a slice", exprStr(c.Args[0]))
+		}
+		x.n++
+		sym := fmt.Sprintf("u!q%d", x.n)
+		var eqs []string
+		for li, l := range leavesOf(sl.Elem()) {
+			if l.Dims > 0 {
+				return Val{}, fmt.Errorf("unchanged: array-typed elements are not supported")
+			}
+			_ = li
+			key := "E:" + typeKey(sl.Elem()) + l.Path
+			srt := l.smtSort(2)
+			a := x.getComp(env.st, key, srt)
+			b := x.getComp(env.old, key, srt)
+			eqs = append(eqs, fmt.Sprintf("(= (select (select %s %s) (+ %s %s)) (select (select %s %s) (+ %s %s)))", a, cur.L[0], cur.L[1], sym, b, old.L[0], old.L[1], sym))
+		}
+		rng := smtAnd("(<= 0 "+sym+")", "(< "+sym+" "+cur.L[2]+")")
+		hdr := smtAnd("(= "+cur.L[0]+" "+old.L[0]+")", "(= "+cur.L[1]+" "+old.L[1]+")", "(= "+cur.L[2]+" "+old.L[2]+")")
+		return mBool(smtAnd(hdr, "(forall (("+sym+" Int)) "+smtImp(rng, smtAnd(eqs...))+")")), nil
 	case "isfresh":
 		v, err := x.spec(env, c.Args[0])
 		if err != nil {
